@@ -46,7 +46,14 @@ def run_routes(ctx):
         if clears:
             ctx.violation("routes", "reload:cleared", "reload clears the routing table and never rebuilds it", site=b.term(clears[0])["sp"])
         else:
-            ctx.ok("routes", "reload:untouched", "routing table not modified")
+            # co-mutation: reload adds / removes / replaces entries of Engine.streams; the routing table names streams,
+            # so it has to change with them
+            from vpr.facts import root_fn
+            muts = [r for r in F.fieldacc if r["adt"] == E and r["field"] == "streams" and r["k"] in ("w", "m", "wt", "mt") and root_fn(r["f"]) == fn]
+            if muts:
+                ctx.violation("routes", "reload:untouched", "reload changes the set of streams (Engine.streams is mutated) but leaves the routing table as it was: added streams receive no events, removed ones are still routed to", site=muts[0]["sp"])
+            else:
+                ctx.ok("routes", "reload:untouched", "neither the streams nor the routing table are modified")
         return
     # hand-made rebuild: compare with the loader's origins
     h = ctx.need_hir(fn, rule="routes")
